@@ -21,6 +21,10 @@ enum COp {
     Snap(u8),
     /// a store call whose closure fails inside `modify()`: set_download_policy for a document that does not exist
     FailingModify,
+    /// remove_replica of the (closed) document
+    Remove,
+    /// import_namespace of the document again
+    Import,
 }
 
 fn gen_op(rng: &mut Rng, w: &World, stats: &mut Stats) -> COp {
@@ -51,6 +55,8 @@ fn ccop(w: &World, o: &COp) -> String {
         COp::Flush => "CFlush".into(),
         COp::Snap(_) => "CSnap".into(),
         COp::FailingModify => "CFailingModify".into(),
+        COp::Remove => "CRemove".into(),
+        COp::Import => "CImport".into(),
     }
 }
 fn jcop(o: &COp) -> String {
@@ -61,6 +67,8 @@ fn jcop(o: &COp) -> String {
         COp::Flush => "\"flush\"".into(),
         COp::Snap(k) => format!("\"{}\"", ["list_namespaces", "list_authors", "get_many", "content_hashes"][*k as usize]),
         COp::FailingModify => "\"set_download_policy on an unknown document (refused)\"".into(),
+        COp::Remove => "\"remove_replica\"".into(),
+        COp::Import => "\"import_namespace (again)\"".into(),
     }
 }
 
@@ -83,6 +91,8 @@ fn apply(rt: &tokio::runtime::Runtime, store: &mut Store, w: &World, o: &COp) ->
             let r = store.set_download_policy(&iroh_docs::NamespaceId::from(&[0xEEu8; 32]), iroh_docs::store::DownloadPolicy::default());
             anyhow::ensure!(r.is_err(), "set_download_policy on an unknown document succeeded");
         }
+        COp::Remove => store.remove_replica(&w.ns_id())?,
+        COp::Import => { store.import_namespace(w.ns.clone().into())?; }
         _ => {
             // the replica info is loaded without touching the store's transaction state twice:
             // open_replica calls tables() once; that call is part of the operation
@@ -91,7 +101,7 @@ fn apply(rt: &tokio::runtime::Runtime, store: &mut Store, w: &World, o: &COp) ->
                 COp::Remote(e) => { verif::set_clock(T0 + 10); let _ = rt.block_on(replica.insert_remote_entry(e.clone(), [3u8; 32], ContentStatus::Missing)); }
                 COp::Insert { au, key, hash, len, now } => { verif::set_clock(*now); let _ = rt.block_on(replica.insert(key, &w.authors[*au], iroh_blobs::Hash::from_bytes(*hash), *len)); }
                 COp::Delete { au, key, now } => { verif::set_clock(*now); let _ = rt.block_on(replica.delete_prefix(key, &w.authors[*au])); }
-                COp::Flush | COp::Snap(_) | COp::FailingModify => unreachable!(),
+                COp::Flush | COp::Snap(_) | COp::FailingModify | COp::Remove | COp::Import => unreachable!(),
             }
             drop(replica);
             store.close_replica(w.ns_id());
@@ -105,6 +115,7 @@ struct Read {
     bykey: Vec<SignedEntry>,
     heads: Vec<([u8; 32], u64)>,
     exact_ok: bool,
+    listed: bool,
 }
 fn read_all(store: &mut Store, w: &World) -> anyhow::Result<Read> {
     let ns = w.ns_id();
@@ -120,7 +131,8 @@ fn read_all(store: &mut Store, w: &World) -> anyhow::Result<Read> {
         let got = store.get_exact(ns, e.author_bytes(), e.key(), true)?;
         if got.as_ref() != Some(e) { exact_ok = false; }
     }
-    Ok(Read { content, bykey, heads, exact_ok })
+    let listed = store.list_namespaces()?.filter_map(|r| r.ok()).any(|(id, _)| id == ns);
+    Ok(Read { content, bykey, heads, exact_ok, listed })
 }
 
 pub fn run(seed: u64, n: usize, out: &Path, _thorough: bool) -> anyhow::Result<()> {
@@ -132,17 +144,27 @@ pub fn run(seed: u64, n: usize, out: &Path, _thorough: bool) -> anyhow::Result<(
     for i in 0..n {
         let w = World::new(seed.wrapping_add((i % 5) as u64), 1 + rng.below(2) as usize);
         let len = 2 + rng.below(6) as usize;
-        let ops: Vec<COp> = (0..len).map(|_| gen_op(&mut rng, &w, &mut stats)).collect();
+        let mut ops: Vec<COp> = (0..len).map(|_| gen_op(&mut rng, &w, &mut stats)).collect();
+        // a third of the histories remove the document and import it again somewhere (two store calls)
+        if rng.chance(1, 3) {
+            let at = rng.below(ops.len() as u64 + 1) as usize;
+            ops.insert(at, COp::Import);
+            ops.insert(at, COp::Remove);
+            stats.inc("op_remove_and_reimport");
+        }
         // live run: the states between complete operations
         let mut boundaries = Vec::new();
+        let mut listed = Vec::new();
         {
             verif::force_aged_at(u64::MAX);
             let dir = tempfile::tempdir()?;
             let mut store = fresh(&w, dir.path())?;
-            boundaries.push(read_all(&mut store, &w)?.content);
+            let r = read_all(&mut store, &w)?;
+            boundaries.push(r.content); listed.push(r.listed);
             for o in &ops {
                 apply(&rt, &mut store, &w, o)?;
-                boundaries.push(read_all(&mut store, &w)?.content);
+                let r = read_all(&mut store, &w)?;
+                boundaries.push(r.content); listed.push(r.listed);
             }
         }
         // crash runs
@@ -179,12 +201,12 @@ pub fn run(seed: u64, n: usize, out: &Path, _thorough: bool) -> anyhow::Result<(
                 };
                 stats.inc("crash_images");
                 if pl.is_some() { stats.inc("forced_commit_placements"); }
-                let r = read.unwrap_or(Read { content: vec![], bykey: vec![], heads: vec![], exact_ok: false });
+                let r = read.unwrap_or(Read { content: vec![], bykey: vec![], heads: vec![], exact_ok: false, listed: false });
                 if !r.content.is_empty() { stats.inc("nonempty_recovered"); }
                 probes.push(format!(
-                    "(mkProbe {} {} {} {} {} {} {})",
+                    "(mkProbe {} {} {} {} {} {} {} {})",
                     k, coption(pl, |c| c.to_string()), cbool(ok), clist(&r.content, centry), clist(&r.bykey, centry),
-                    clist(&r.heads, |(a, t)| format!("({}, {})", n256(a), t)), cbool(r.exact_ok)
+                    clist(&r.heads, |(a, t)| format!("({}, {})", n256(a), t)), cbool(r.exact_ok), cbool(r.listed)
                 ));
                 if jprobes.len() < 6 {
                     jprobes.push(format!("{{\"after_op\":{},\"forced_commit_at_check\":{},\"opened\":{},\"recovered_entries\":{}}}", k, pl.map(|c| c as i64).unwrap_or(-1), ok, r.content.len()));
@@ -193,8 +215,8 @@ pub fn run(seed: u64, n: usize, out: &Path, _thorough: bool) -> anyhow::Result<(
             }
         }
         let coq = format!(
-            "(mkCase {} {} {} [{}])",
-            n256(w.ns_id().as_bytes()), clist(&ops, |o| ccop(&w, o)), clist(&boundaries, |b| clist(b, centry)), probes.join("; ")
+            "(mkCase {} {} {} {} [{}])",
+            n256(w.ns_id().as_bytes()), clist(&ops, |o| ccop(&w, o)), clist(&boundaries, |b| clist(b, centry)), clist(&listed, |b| cbool(*b).to_string()), probes.join("; ")
         );
         let json = format!("{{\"ops\":[{}],\"boundary_sizes\":[{}],\"first_probes\":[{}],\"n_probes\":{}}}",
             ops.iter().map(jcop).collect::<Vec<_>>().join(","),
